@@ -432,12 +432,15 @@ class Ctx:
                 else:
                     self.broken.append({"kind": "obligation", "file": "?", "statement": None, "error": out[-2000:]})
                     self.note("make failed: " + out[-800:])
-                # count as undischarged every statement of files that did not compile
+                # count as undischarged every statement of files that are not up to date after the failed build
+                # (`make -q` asks just that; time stamps alone lie when coq/ was copied for an alternate checkout)
                 discharged = 0
+                uptodate = {}
                 for n in names:
                     f = n.split(":")[0]
-                    if os.path.exists(os.path.join(COQ, f[:-2] + ".vo")) and \
-                            os.path.getmtime(os.path.join(COQ, f[:-2] + ".vo")) >= os.path.getmtime(os.path.join(COQ, f)):
+                    if f not in uptodate:
+                        uptodate[f] = sh(["make", "-q", f[:-2] + ".vo"], cwd=COQ, timeout=120)[0] == 0
+                    if uptodate[f]:
                         discharged += 1
             if forb:
                 self.broken.append({"kind": "forbidden-vernacular", "what": forb})
